@@ -431,7 +431,7 @@ def run(chk):
             files = L.files_of(d)
             res = {}
             for tool, args, heap in (("ovnidump", [], True), ("ovnidump", ["-x"], True), ("ovnitop", [], True), ("ovniemu", [], True),
-                                     ("ovnisort", ["-c"], True), ("ovnisort", [], False)):
+                                     ("ovnisort", ["-c"], True), ("ovnisort", ["-n", "6"], False), ("ovnisort", [], False)):
                 rc, out, err, bad = L.run_judged(L.keep_build(asan), tool, args, d, heapbuf=heap, timeout=10)
                 # one "<clock>  MCV  <relpath>  ..." record per event (M, C, V or a printed string may hold a newline)
                 res[tool + "".join(args)] = (rc, out.count("  loom.n0/proc."), bad, err[-1800:] if bad else "")
